@@ -61,15 +61,19 @@ func (a *EncodeAssembler[S, T]) Encode(source S) (T, error) {
 
 // Compile compiles an encoder for a given type.
 func (a *EncodeAssembler[S, T]) Compile(typ reflect.Type) (Encoder[S, T], error) {
-	a.mu.RLock()
-	defer a.mu.RUnlock()
-
 	if enc, ok := a.encoders.Load(typ); ok {
 		return enc.(Encoder[S, T]), nil
 	}
 
-	encoders := make([]Encoder[S, T], 0, len(a.compilers))
-	for _, compiler := range a.compilers {
+	// Compilers of container types call Compile again for their element types: the lock must
+	// not be held across them, a nested RLock deadlocks as soon as an Add is waiting.
+	// Add never modifies a published slice, so the snapshot is stable.
+	a.mu.RLock()
+	compilers := a.compilers
+	a.mu.RUnlock()
+
+	encoders := make([]Encoder[S, T], 0, len(compilers))
+	for _, compiler := range compilers {
 		if enc, err := compiler.Compile(typ); err == nil {
 			encoders = append(encoders, enc)
 		}
@@ -127,15 +131,17 @@ func (a *DecodeAssembler[S, T]) Decode(source S, target T) error {
 
 // Compile compiles a decoder for a given type.
 func (a *DecodeAssembler[S, T]) Compile(typ reflect.Type) (Decoder[S, unsafe.Pointer], error) {
-	a.mu.RLock()
-	defer a.mu.RUnlock()
-
 	if dec, ok := a.decoders.Load(typ); ok {
 		return dec.(Decoder[S, unsafe.Pointer]), nil
 	}
 
-	decoders := make([]Decoder[S, unsafe.Pointer], 0, len(a.compilers))
-	for _, compiler := range a.compilers {
+	// See EncodeAssembler.Compile: no lock is held across the (re-entrant) compilers.
+	a.mu.RLock()
+	compilers := a.compilers
+	a.mu.RUnlock()
+
+	decoders := make([]Decoder[S, unsafe.Pointer], 0, len(compilers))
+	for _, compiler := range compilers {
 		if dec, err := compiler.Compile(typ); err == nil {
 			decoders = append(decoders, dec)
 		}
